@@ -99,6 +99,15 @@ func (e *Engine) Discharge(o *Obligation, dir string, idx int, timeoutS int, see
 		return
 	}
 	quickTime := o.Time
+	// a short run of the whole portfolio on the unsplit obligation (many are decided by cvc5 within seconds)
+	if short := 6; timeoutS > short {
+		e.discharge1(o, dir, idx, short, seed, false)
+		quickTime += o.Time
+		if o.Status == "unsat" || o.Status == "sat" {
+			o.Time = quickTime
+			return
+		}
+	}
 	// second formulation: prove the goal separately on every merged path
 	total := 0.0
 	solver := ""
